@@ -139,6 +139,15 @@ def search(ctx, deep):
                     gs = np.asarray(c.generator(ts), dtype=float)
                     if not np.all(np.diff(gs) <= 1e-12 * np.abs(gs[:-1]) + 1e-15):
                         bad('generator-decreasing', {'t': ts.tolist()}, gs.tolist(), 'generator decreasing')
+                # the `cdf` alias (an observe-at entry point) is cumulative_distribution
+                Xa = np.array([(rng.random(), rng.random()) for _ in range(6)] + [(0.0, 0.3), (1.0, 0.7), (1e-12, 1 - 1e-12)])
+                with np.errstate(all='ignore'):
+                    a1 = np.asarray(c.cumulative_distribution(Xa.copy()), dtype=float)
+                    a2 = np.asarray(c.cdf(Xa.copy()), dtype=float)
+                checked += 1
+                if not np.array_equal(a1, a2, equal_nan=True):
+                    bad('alias-cdf-differs', {'rows': Xa.tolist()}, {'cumulative_distribution': a1.tolist(), 'cdf': a2.tolist()},
+                        'cdf is a shortcut to cumulative_distribution')
                 # rectangle volumes
                 for _ in range(30):
                     u1, u2 = sorted((rng.random(), rng.random()))
